@@ -97,7 +97,7 @@ def explore(ctx):
 
 # ---- subclass instances (the quantifier names them: IntEnum, str subclasses, pendulum temporals, OrderedDict / deque containers)
 SUB_PRELUDE = """
-import collections, dataclasses, datetime, decimal, enum, typing
+import collections, collections.abc, dataclasses, datetime, decimal, enum, typing
 class Level(enum.IntEnum):
     LOW = 1
     HIGH = 2
@@ -151,6 +151,21 @@ class Envelope:
     body: typing.Union[Ping, Stamp]
     sent: typing.Union[Ping, datetime.date]
     trail: list[typing.Union[Ping, Stamp]]
+class Key(str, enum.Enum):
+    NAME = "name"
+    A = "a"
+class PlainTD(typing.TypedDict):
+    a: int
+    name: str
+class CustomMap(collections.abc.Mapping):
+    def __init__(self, d):
+        self._d = dict(d)
+    def __getitem__(self, k):
+        return self._d[k]
+    def __iter__(self):
+        return iter(self._d)
+    def __len__(self):
+        return len(self._d)
 try:
     import pendulum
 except Exception:
@@ -177,6 +192,11 @@ SUB_CASES = [
     ("Envelope", "Envelope('ping', Ping(), datetime.date(2024, 2, 29), [Ping()])"),
     ("ExtTD", "{'name': 'w', 'level': Level.HIGH, 'amount': decimal.Decimal('12.50'), 'when': datetime.date(2024, 2, 29), 'tags': ['a'], "
               "'counts': collections.OrderedDict(x=1)}"),
+    # the KEYS of a mapping given for a structured type: spelled with a str subclass or a str enum member, they name the same fields
+    ("PlainTD", "{Key.A: 1, Key.NAME: 'n'}"), ("PlainTD", "{S('a'): True, S('name'): S('n')}"), ("list[PlainTD]", "[{Key.A: 1, 'name': 'n'}]"),
+    ("dict[str, PlainTD]", "{Key.A: {S('a'): 1, Key.NAME: Color.RED}}"), ("typing.Optional[PlainTD]", "collections.OrderedDict([(Key.A, 1), (Key.NAME, 'n')])"),
+    ("PlainTD", "CustomMap({Key.A: Level.LOW, S('name'): 'n'})"), ("Stamp", "{Key('a'): 1, S('on'): datetime.date(2024, 2, 29)}"),
+    ("ExtTD", "{Key.NAME: 'w', S('level'): Level.HIGH, 'amount': decimal.Decimal('1'), 'when': datetime.date(2024, 2, 29), 'tags': [], 'counts': {S('k'): 1}}"),
     ("list[ExtTD]", "[{'name': S('w'), 'level': Level.LOW, 'amount': MyDec('1'), 'when': datetime.date(2024, 2, 29), 'tags': MyList(['a']), 'counts': {}}]"),
 ]
 
